@@ -650,6 +650,17 @@ pub fn diff(path: &str, want: &Value, got: &Value) -> Option<String> {
 /// Strip `[n]`, digits and quoted data from a diff so that signatures group by field, not by value.
 pub fn diff_class(d: &str) -> String {
     let head = d.split(':').next().unwrap_or(d);
+    // keys of maps (rule names, variable names) are data: keep the path down to the container only
+    let head: String = {
+        let segs: Vec<&str> = head.split('.').collect();
+        let keep = if segs.len() > 2 && ["unused_entries", "rules", "mutators_and_rules"].contains(&segs[1]) {
+            if segs[1] == "mutators_and_rules" { 3 } else { 2 }
+        } else {
+            segs.len()
+        };
+        segs[.. keep.min(segs.len())].join(".")
+    };
+    let head = head.as_str();
     let mut out = String::new();
     let mut in_idx = false;
     for c in head.chars() {
@@ -695,6 +706,14 @@ pub fn normalise_unordered(v: &mut Value, paths: &[Value]) {
                 }
             }
             Some((seg, rest)) => {
+                if seg.as_str() == Some("*") {
+                    match cur {
+                        Value::Object(m) => m.values_mut().for_each(|x| go(x, rest)),
+                        Value::Array(a) => a.iter_mut().for_each(|x| go(x, rest)),
+                        _ => {}
+                    }
+                    return;
+                }
                 let next = match seg.as_str() {
                     Some(k) => cur.get_mut(k),
                     None => cur.get_mut(seg.as_u64().unwrap() as usize),
